@@ -34,6 +34,8 @@ pub static START: OnceLock<Instant> = OnceLock::new();
 pub static PROGRESS: AtomicU64 = AtomicU64::new(0);
 /// logical clock shared by the threads of a scenario ("tick" bumps it, "wait_tick" spins until it reaches n)
 pub static TICK: AtomicU64 = AtomicU64::new(0);
+/// contexts with an id >= 1_000_000 are shared by all threads of the scenario
+static SHARED_CTXS: OnceLock<Mutex<HashMap<i64, Context>>> = OnceLock::new();
 pub static OUT: OnceLock<Mutex<File>> = OnceLock::new();
 pub static JOURNAL: OnceLock<File> = OnceLock::new();
 
@@ -271,6 +273,21 @@ fn do_reenter(act: &J) -> String {
             do_register(act.get("act").str(), act);
             "\"done\"".to_string()
         }
+        "lock_then_reg" => {
+            let h = ST.with(|st| st.borrow().ctx.as_ref().map(ctx_handle));
+            match h {
+                Some(h) => {
+                    if let Err(std::sync::TryLockError::WouldBlock) = h.0.try_lock() {
+                        // may be held by another thread for a moment (shared context): wait for it for real
+                    }
+                    let g = h.0.lock();
+                    do_register("reg_fn", act);
+                    drop(g);
+                    "\"done\"".to_string()
+                }
+                None => "\"no_ctx\"".to_string(),
+            }
+        }
         other => format!("{{\"unknown\":{}}}", q(other)),
     }
 }
@@ -358,6 +375,10 @@ impl Interp {
     fn ctx(&mut self, id: &J) -> Context {
         if id.is_null() {
             return Context::new();
+        }
+        if id.int() >= 1_000_000 {
+            let mut g = SHARED_CTXS.get_or_init(|| Mutex::new(HashMap::new())).lock().unwrap();
+            return ctx_handle(g.entry(id.int()).or_insert_with(Context::new));
         }
         let c = self.ctxs.entry(id.int()).or_insert_with(Context::new);
         ctx_handle(c)
@@ -662,10 +683,18 @@ impl Interp {
                 }
                 let text = j.get("text").str();
                 let n = j.get("n").int();
+                let hc = if j.get("ctx").is_null() { None } else { Some(self.ctx(j.get("ctx"))) };
                 let mut segs: Vec<(String, u64, u64, u64, u64)> = Vec::new();
                 for _ in 0..n {
                     let a = now_ns();
-                    let r = catch(|| execute(text, Context::new()));
+                    let cx = match &hc {
+                        Some(c) => ctx_handle(c),
+                        None => Context::new(),
+                    };
+                    if let Some(c) = &hc {
+                        ST.with(|st| st.borrow_mut().ctx = Some(ctx_handle(c)));
+                    }
+                    let r = catch(|| execute(text, cx));
                     let b = now_ns();
                     let key = match r {
                         Ok(r) => res_json(&r),
